@@ -5,7 +5,8 @@ from ..runner import Case
 from .. import gen, core
 
 ID = "C09"
-LEAN_TARGETS = ["Cider.Props.C09", "Cider.Props.C09Tie"]
+STATEFUL = True     # some blocks keep a live object across lines
+LEAN_TARGETS = ["Cider.Props.C09Pi", "Cider.Props.C09", "Cider.Props.C09Tie"]
 # source-text tie (translated on every run by tools/pyexpr2lean.py); skipped when the function no longer fits the translator
 OPTIONAL_TARGETS = ["Cider.Props.C09Src"]
 OPTIONAL_THEOREMS = {"Cider.Props.C09Src": ['Cider.C09Src.verifyPH_eq']}
@@ -13,7 +14,11 @@ P = "Cider.C09."
 THEOREMS = [P + t for t in (
     "charge_loop_eq_counts", "ncprPH_antitone", "abs_ncprPH_le_fcrPH", "fcrPH_le_titratable_fraction", "fcrPH_nonneg",
     "ferPH_eq", "pH_rejected_iff", "piStep_progress", "pi_fuel_suffices", "pi_result_sound", "pi_no_titratable",
-    "gen_pKa_eq_emboss", "gen_titration_classes")]
+    "gen_pKa_eq_emboss", "gen_titration_classes",
+    # get_isoelectric_point() never raises (Props/C09Pi.lean)
+    "piEscape_inv", "piBisect_inv", "piLoop_no_error", "pi_returns_of", "sigma_mod", "chargeNormalized_antitone", "chargeNormalized_mod",
+    "chargeNormalized_at_zero", "chargeNormalized_at_24", "exists_near_neutral", "pi_never_raises", "spec_table_ok", "gen_table_ok",
+    "pi_never_raises_spec", "pi_never_raises_gen")]
 RULE = ("each case = one sequence: get_NCPR / get_FCR / get_mean_net_charge / get_fraction_expanding at a grid of pH values (0, 14, every "
         "pKa, random interior points, ints and floats, and values just outside [0,14] that must raise) and get_isoelectric_point(), vs "
         "the generic Lean model run on Float (same formula, same bisection; tol 1e-9); oracle 1 (no model): NCPR(pH) is non-increasing "
@@ -63,6 +68,22 @@ def cases(rng, tier):
     for s in ext:
         lines, meta = block(s, rng)
         yield Case(lines, {"kind": "extreme", "meta": meta, "seq": s})
+    # ONE object, pI asked before / between the pH queries, at the pH values the bisection itself visits (7, 3.5, 10.5, ...):
+    # every answer must be the one a fresh object gives (the model is a pure function of the sequence)
+    path = ["7/1", "7/2", "21/2", "7/4", "21/4", "35/4", "49/4", "0/1", "14/1"]
+    for kind, s in gen.rand_seqs(rng, 25 if tier == "quick" else 250, 60):
+        if not any(c in "KRHDECY" for c in s):
+            continue
+        lines = ["new 0 " + s]
+        order = rng.choice(["pi-first", "pi-between", "pi-last"])
+        qs = ["o 0 phq %s %s" % (g_, t) for t in rng.sample(path, 4) for g_ in ("ncpr", "mnc", "fcr", "fer")]
+        if order == "pi-first":
+            lines += ["o 0 pi"] + qs
+        elif order == "pi-between":
+            lines += qs[:8] + ["o 0 pi"] + qs + ["o 0 pi"]
+        else:
+            lines += qs + ["o 0 pi"]
+        yield Case(lines, {"kind": "same-object-" + order})
     for kind, s in gen.rand_seqs(rng, 100 if tier == "quick" else 1000, 300):
         lines, meta = block(s, rng)
         yield Case(lines, {"kind": kind, "meta": meta, "seq": s}, nontrivial=any(c in "KRHDECY" for c in s))
